@@ -1,4 +1,4 @@
-import XdslProofs.Lemmas.IRStep
+import XdslProofs.Lemmas.IRStepAll
 /-!
 # C01 — IR edits keep the op/block/region tree and use-def chains consistent
 
@@ -10,12 +10,20 @@ their owner."
 
 Model: `XdslModel/DLL.lean` (one generic intrusive doubly-linked-list library), `XdslModel/IRStore.lean`
 (the store and every public mutator as pointer updates), `XdslModel/IRApi.lean` (the `Call` language
-of histories).  Lemmas: `XdslProofs/Lemmas/{DLL,IRStore}.lean`.
+of histories).  Lemmas: `XdslProofs/Lemmas/{DLL,IRStore,IRUses,IRStep,IRSubtree,IRErase,IRStepAll}.lean`.
 
 Part 1 — the list library, proved completely: every primitive preserves the representation
 invariant `DLL.WF` and refines the corresponding operation on abstract lists.
 Part 2 — what the store invariant `Inv` says (the property's sentence, clause by clause).
-Part 3 — `Inv` is preserved by the calls in `covered`, and hence by every history of such calls.
+Part 3 — `Inv` is preserved by the calls in `covered` (`inv_step_partial`, `inv_history_partial`:
+the 45 non-erasing call kinds, unconditionally).
+Part 4 — the 13 erasing call kinds: the subtree walk of `drop_all_references` from a detached object
+terminates, is duplicate-free and parent-closed (`erase_walk`), dropping it preserves `Inv`
+(`inv_dropTree`), hence `inv_step` / `inv_history` over all 58 call kinds.  The only hypothesis is the
+contract of `Operation.drop_all_references` (called on a detached operation; without it the property
+is false, `dropAllReferences_attached_counterexample`).  No acyclicity of the parent relation is
+needed: an object has one parent and a detached root has none, so the walk below a detached root
+cannot reach a cycle.
 -/
 namespace Xdsl.C01
 open Xdsl Xdsl.DLL Xdsl.IR
@@ -264,16 +272,10 @@ replace_value_with_new_type`;
 insert_block_argument/erase_block_argument/replace_all_uses_with/replace_value_with_new_type` and
 `Builder.create_block`.
 
-PARTIAL.  Full statement: `∀ c, Inv s → s.exec c = .ok s' → Inv s'`.  NOT covered by a proof (the
-model executes them and the correspondence check compares the model with the real objects after
-every such call, but preservation of `Inv` is not proved):
-* the erasure of operations, blocks and regions (13 call kinds) `erase_op, block_erase, erase_block, erase_block_idx, region_erase,
-  op_erase, drop_all_references, rw_erase_op, rw_replace_op, rw_inline_block, pr_erase, pr_replace,
-  pr_inline_block`: they run
-  `drop_all_references` over a whole subtree, whose proof needs the parent structure to be acyclic —
-  an invariant that xDSL itself only guards in `_attach_op/_attach_block` (not in `move_blocks`,
-  `move_blocks_before`, `add_region`), so it holds only under the harness' contract and is not
-  part of `Inv`. -/
+The remaining 13 call kinds (the erasure of operations, blocks and regions: `erase_op, block_erase,
+erase_block, erase_block_idx, region_erase, op_erase, drop_all_references, rw_erase_op, rw_replace_op,
+rw_inline_block, pr_erase, pr_replace, pr_inline_block`) are covered by `inv_step` in Part 4; this
+theorem is kept because it needs no contract hypothesis. -/
 theorem inv_step_partial {s s' : IRStore} {c : Call} (h : Inv s) (hc : covered c = true)
     (hok : s.exec c = .ok s') : Inv s' := by
   unfold IRStore.exec at hok
@@ -323,6 +325,150 @@ example :
     s.blocksOf 1 = [0, 2, 1] ∧ s.blockL.toListBack 1 = [1, 2, 0] ∧ s.opsOf 0 = [0] ∧ s.opsOf 2 = [1] ∧
     s.opParent 4 = none ∧ (s.op! 1).operands = [0, 4] ∧ (s.op! 2).operands = [2, 0] ∧ (s.op! 2).successors = [1, 2] ∧
     (s.vuseL.toList 0).map s.use! = [(1, 0), (2, 1), (0, 0)] ∧ (s.buseL.toList 2).map s.use! = [(2, 1)] := by
+  decide +kernel
+
+/-! ## Part 4 — erasure, and all 58 call kinds -/
+
+/-- **The subtree walk of `drop_all_references`.**  From a detached, registered object `root` the
+fuel-bounded walk `subtreeOf` (fuel `3 · size`) does not run out of fuel and returns a list `T`
+that is duplicate-free, contains `root`, consists of registered objects, and is parent-closed both
+ways: an object with a parent is in `T` iff its parent is (so `T` is exactly the set of objects
+below `root`).  No acyclicity assumption: cycles elsewhere in the store are out of reach of a
+detached root. -/
+theorem erase_walk {s : IRStore} (h : Inv s) {root : Ref} (hroot : s.parentRef root = none)
+    (hreg : Reg s root) :
+    (s.subtreeOf root).Nodup ∧ root ∈ s.subtreeOf root ∧ (∀ y ∈ s.subtreeOf root, Reg s y) ∧
+    ∀ c p, s.parentRef c = some p → (c ∈ s.subtreeOf root ↔ p ∈ s.subtreeOf root) := by
+  obtain ⟨a, ha⟩ := h
+  have T := subtreeOf_spec ha hroot hreg
+  exact ⟨T.nodup, T.root, T.reg, T.closed⟩
+
+/-- `drop_all_references` over the subtree of a detached object preserves the invariant (the uses
+held by the erased operations leave the use lists of all values and blocks — inside and outside
+the subtree —, the link fields of everything in the subtree are nulled). -/
+theorem inv_dropTree {s : IRStore} (h : Inv s) {root : Ref} (hroot : s.parentRef root = none)
+    (hreg : Reg s root) : Inv (s.dropTree root) :=
+  (h.dropTree hroot hreg).1
+
+/-- what "erasing removes exactly the uses of the erased operations" means for one operation:
+after `drop_all_references` of `o` alone, a use is in a value's use list iff it was there before and
+is not one of the `Use` objects of `o` (the same holds for block use lists). -/
+theorem dropOne_uses {s : IRStore} {a : Abs} (ha : InvA s a) {o : Nat} {d : OpData}
+    (hd : AL.get s.ops o = some d) (v u : Nat) :
+    u ∈ (s.dropOne (.op o)).vuseL.toList v ↔ u ∈ s.vuseL.toList v ∧ u ∉ d.operandUses := by
+  have hop : s.op! o = d := by simp [IRStore.op!, hd]
+  have U := ha.operandUses
+  obtain ⟨f1, w1, m1⟩ := ha.vuseL.removeAll (d.operands.zip d.operandUses)
+    (fun p hp => by
+      obtain ⟨i, h1, h2⟩ := mem_zip_iff_getElem?.mp (show (p.1, p.2) ∈ _ from hp)
+      exact (U.fwd o d i p.2 p.1 hd h2 h1).2)
+    (by rw [zip_map_snd (U.len o d hd)]; exact U.uid_nodup hd)
+  rw [zip_map_snd (U.len o d hd)] at m1
+  rw [dropOne_op, hop]
+  show u ∈ L.toList _ v ↔ _
+  rw [w1.toList_eq, ha.vuseL.toList_eq, m1]
+
+/-- **One step, every call kind.**  A successful call preserves the invariant.  `contract s c` is
+`true` for every call except `drop_all_references o`, where it says that `o` is detached (the
+harness' `contract_ok`; `dropAllReferences_attached_counterexample` shows that it cannot be dropped). -/
+theorem inv_step {s s' : IRStore} {c : Call} (h : Inv s) (hcon : contract s c = true)
+    (hok : s.exec c = .ok s') : Inv s' := by
+  unfold IRStore.exec at hok
+  by_cases href : s.refsOk c = true
+  · simp only [href, if_true] at hok; exact inv_api_all h c hcon href hok
+  · simp [href] at hok
+
+/-- the 57 call kinds other than `drop_all_references`: no hypothesis at all -/
+theorem inv_step_unconditional {s s' : IRStore} {c : Call} (h : Inv s)
+    (hc : ∀ o, c ≠ .dropAllReferences o) (hok : s.exec c = .ok s') : Inv s' := by
+  refine inv_step h ?_ hok
+  cases c <;> first | rfl | exact absurd rfl (hc _)
+
+/-- the contract holds at every call of the history, in the state in which the call is made -/
+def contracted (s : IRStore) : List Call → Bool
+  | [] => true
+  | c :: cs => contract s c && contracted (s.run [c]) cs
+
+/-- **All histories, all 58 call kinds**: "After any sequence of successful IR edits …" (calls that
+raise are skipped) the store is consistent. -/
+theorem inv_history {s : IRStore} (h : Inv s) (cs : List Call) (hc : contracted s cs = true) :
+    Inv (s.run cs) := by
+  induction cs generalizing s with
+  | nil => exact h
+  | cons c r ih =>
+    simp only [contracted, Bool.and_eq_true] at hc
+    have e : s.run (c :: r) = (s.run [c]).run r := rfl
+    rw [e]
+    refine ih ?_ hc.2
+    show Inv (match s.exec c with
+      | .ok s' => s'
+      | .error _ => s)
+    cases hx : s.exec c with
+    | ok s' => exact inv_step h hc.1 hx
+    | error _ => exact h
+
+/-- histories without `Operation.drop_all_references` need no hypothesis -/
+theorem inv_history_unconditional {s : IRStore} (h : Inv s) (cs : List Call)
+    (hc : ∀ c ∈ cs, ∀ o, c ≠ .dropAllReferences o) : Inv (s.run cs) := by
+  refine inv_history h cs ?_
+  clear h
+  induction cs generalizing s with
+  | nil => rfl
+  | cons c r ih =>
+    simp only [contracted, Bool.and_eq_true]
+    refine ⟨?_, ih (fun c' hc' => hc c' (List.mem_cons_of_mem _ hc'))⟩
+    have := hc c List.mem_cons_self
+    cases c <;> first | rfl | exact absurd rfl (this _)
+
+/-- The contract of `inv_step` is necessary: `Operation.drop_all_references` on an operation that
+is still attached leaves the block listing an operation whose parent pointer is null (in the model
+and in xDSL alike). -/
+theorem dropAllReferences_attached_counterexample :
+    let cs : List Call := [.newBlock 0 [] [], .newOp 0 0 [] [] [] [], .addOp 0 0, .dropAllReferences 0]
+    Inv (IRStore.run {} (cs.take 3)) ∧ ¬ Inv (IRStore.run {} cs) := by
+  refine ⟨inv_history inv_empty _ (by decide), fun h => ?_⟩
+  have h1 := (ops_exactly_once h 0).2.2.1 0
+  have h2 : (0 : Nat) ∈ (IRStore.run {} [.newBlock 0 [] [], .newOp 0 0 [] [] [] [], .addOp 0 0,
+    .dropAllReferences 0]).opsOf 0 := by decide
+  have h3 : (IRStore.run {} [.newBlock 0 [] [], .newOp 0 0 [] [] [] [], .addOp 0 0,
+    .dropAllReferences 0]).opParent 0 = none := by decide
+  rw [h1.mp h2] at h3
+  cases h3
+
+/-- non-vacuity: a history that erases an operation with a nested region whose result is still used
+(`Rewriter.erase_op`, unsafe), replaces an operation (`Rewriter.replace_op`), drops the references
+of a detached operation, erases a block out of a region and a whole region — every call succeeds,
+the contract holds, so `Inv` holds at the end; and what the final store shows. -/
+def demoErase : List Call := [
+  .newBlock 0 [0] [],
+  .newOp 0 0 [1] [0] [] [],
+  .newOp 1 0 [] [1, 0] [] [],
+  .newBlock 1 [] [1],
+  .newRegion 0 [1],
+  .newOp 2 0 [2] [1] [] [0],
+  .addOps 0 [0, 2],
+  .newOp 3 0 [] [2] [] [],
+  .addOp 0 3,
+  .rwEraseOp 2 false,
+  .newOp 4 0 [3] [] [] [],
+  .rwReplaceOp 0 ⟨[4], false⟩ none true,
+  .newOp 5 0 [4] [0] [] [],
+  .dropAllReferences 5,
+  .newBlock 2 [5] [],
+  .newOp 6 0 [] [5, 3] [2] [],
+  .newBlock 3 [] [6],
+  .newRegion 1 [2, 3],
+  .eraseBlock 1 3 true,
+  .regionErase 1 ]
+
+example : Inv (IRStore.run {} demoErase) := inv_history inv_empty demoErase (by decide +kernel)
+
+example :
+    let s := IRStore.run {} demoErase
+    s.opsOf 0 = [4, 3] ∧ s.opL.toListBack 0 = [3, 4] ∧ s.blocksOf 1 = [] ∧
+    (s.vuseL.toList 0).map s.use! = [] ∧ (s.vuseL.toList 1).map s.use! = [] ∧
+    (s.vuseL.toList 3).map s.use! = [] ∧ (s.vuseL.toList (E_BASE + 2)).map s.use! = [(3, 0)] ∧
+    (s.buseL.toList 2).map s.use! = [] ∧ s.deadO = [6, 5, 0, 2, 1] ∧ s.deadB = [2, 3, 1] ∧ s.deadR = [1, 0] := by
   decide +kernel
 
 end Xdsl.C01
